@@ -28,6 +28,7 @@ Ok(e, ALL) ==
    /\ LayersEq(e.dec, [i \in 1..Len(e.tile) |-> LayerD(e.tile[i])])      \* decoder = decoder state machine
    /\ LayersEq(e.dec, [i \in 1..Len(e.layers) |-> LayerCanon(e.layers[i], ALL)])   \* round trip = Canon
    /\ e.decgz = e.dec                                         \* gzipped path agrees
+   /\ e.stable = 1                                            \* results handed out earlier are not written to by later calls
 Init == l = 1 /\ bad = {} /\ alt = {}
 Next == /\ l <= Len(Trace) /\ l' = l + 1
         /\ LET ok == Ok(Trace[l], TRUE) IN
